@@ -80,6 +80,16 @@ Proof.
   - simpl. rewrite IH. reflexivity.
   - rewrite <- IH. destruct (split_on sep r); reflexivity.
 Qed.
+Lemma memb_map x l : memb (phi x) (map phi l) = memb x l.
+Proof. unfold memb. induction l as [|y l IH]; [reflexivity|]. simpl. rewrite eqb_phi', IH. reflexivity. Qed.
+Lemma split_by_map p q : (forall x, q (phi x) = p x) ->
+  forall s, map (map phi) (split_by p s) = split_by q (map phi s).
+Proof.
+  intros H. induction s as [|x r IH]; [reflexivity|].
+  simpl. rewrite H. destruct (p x).
+  - simpl. rewrite IH. reflexivity.
+  - rewrite <- IH. destruct (split_by p r); reflexivity.
+Qed.
 Lemma zlist_eqb_map : forall r s, zlist_eqb (map phi r) (map phi s) = zlist_eqb r s.
 Proof.
   unfold zlist_eqb. induction r as [|x r IH]; intros [|y s]; simpl; try reflexivity.
@@ -136,6 +146,7 @@ Proof.
   - reflexivity.
   - intros. simpl. unfold m_join. rewrite join_spec. apply s_join_map.
   - intros. simpl. rewrite split_spec. apply split_on_map. exact Hinj.
+  - intros s0 seps. simpl. rewrite split_list_spec. unfold s_split_l. apply split_by_map. intros x. apply memb_map. exact Hinj.
   - intros. simpl. rewrite str_equal_spec. apply s_streq_map. exact Hinj.
   - intros. simpl. rewrite str_equal2_spec. apply s_streq2_map. exact Hinj.
   - intros. simpl. rewrite ragged_slice_spec. apply s_rslice_map.
